@@ -66,6 +66,11 @@ if confirmed:
                     break
     finally:
         sh("git -C /repo checkout -- .")
+    # the runs above rewrote evidence/<ID>.json from a patched tree: restore it
+    # from the clean tree so that a stale failing record is never committed
+    for cid in ids:
+        sh("cd %s && python3 tools/vcheck.py %s --tier quick" % (V, cid), timeout=3600)
+    sh("find %s/evidence/replays -name '*.json' -delete" % V)
 meta.update({"confirmed_by_integrator": confirmed, "integrator_ran": ran, "detection": det,
              "caught": any(v["exit"] != 0 for v in det.values())})
 json.dump(meta, open(os.path.join(dst, "meta.json"), "w"), indent=1)
